@@ -9,6 +9,8 @@ import (
 	"sort"
 	"strings"
 	"sync"
+	"sync/atomic"
+	"time"
 
 	"github.com/cloudwego/thriftgo/fieldmask"
 	"github.com/cloudwego/thriftgo/parser"
@@ -239,6 +241,7 @@ type maskImage struct {
 }
 
 type maskResult struct {
+	cur    atomic.Value
 	Panic  string     `json:"panic,omitempty"` // first panic of any stage
 	Stage  string     `json:"stage,omitempty"` // stage of that panic
 	Err    string     `json:"err,omitempty"`   // error of NewFieldMask
@@ -254,6 +257,7 @@ type maskResult struct {
 }
 
 func (r *maskResult) guard(stage string, f func()) bool {
+	r.cur.Store(stage)
 	var qp *maskQueryPanic
 	p := nd.Guard(func() {
 		defer func() {
@@ -405,12 +409,41 @@ var maskGenericQ = &maskQueries{Walks: [][][]interface{}{
 }}
 
 type maskRobustResult struct {
+	Hang   bool   `json:"hang,omitempty"` // the call did not return within the watchdog time (stage = where)
 	Panic  string `json:"panic,omitempty"`
 	Stage  string `json:"stage,omitempty"`
 	Accept string `json:"accept"` // which entry points accepted the input, e.g. "WB" / "JU"
 }
 
-func maskRobustPath(c *maskCase) (*maskRobustResult, error) {
+var maskHangs int32
+
+// maskWatch runs f(r) with a watchdog: a call that does not return is an observation ("hang"), the stuck goroutine
+// is abandoned (it cannot be killed); after 24 hangs the remaining cases are not run any more.
+func maskWatch(f func(r *maskResult) (*maskRobustResult, error)) (*maskRobustResult, error) {
+	if atomic.LoadInt32(&maskHangs) >= 24 {
+		return &maskRobustResult{Accept: "skipped"}, nil
+	}
+	r := &maskResult{}
+	type res struct {
+		o *maskRobustResult
+		e error
+	}
+	ch := make(chan res, 1)
+	go func() {
+		o, e := f(r)
+		ch <- res{o, e}
+	}()
+	select {
+	case x := <-ch:
+		return x.o, x.e
+	case <-time.After(20 * time.Second):
+		atomic.AddInt32(&maskHangs, 1)
+		st, _ := r.cur.Load().(string)
+		return &maskRobustResult{Hang: true, Stage: st}, nil
+	}
+}
+
+func maskRobustPath(c *maskCase, r *maskResult) (*maskRobustResult, error) {
 	raw, err := hex.DecodeString(c.Hex)
 	if err != nil {
 		return nil, err
@@ -418,7 +451,6 @@ func maskRobustPath(c *maskCase) (*maskRobustResult, error) {
 	p := string(raw)
 	desc := maskDescs[c.Root]
 	q := maskQ[c.Root]
-	r := &maskResult{}
 	out := &maskRobustResult{}
 	for _, black := range []bool{false, true} {
 		tag := "white"
@@ -456,7 +488,7 @@ func maskRobustPath(c *maskCase) (*maskRobustResult, error) {
 	return out, nil
 }
 
-func maskRobustJSON(c *maskCase) (*maskRobustResult, error) {
+func maskRobustJSON(c *maskCase, r *maskResult) (*maskRobustResult, error) {
 	raw, err := hex.DecodeString(c.Hex)
 	if err != nil {
 		return nil, err
@@ -464,7 +496,6 @@ func maskRobustJSON(c *maskCase) (*maskRobustResult, error) {
 	maskSetup()
 	desc := maskDescs["R"]
 	q := &maskQueries{Walks: maskGenericQ.Walks, Pims: []string{"$.x", "$.s.a", "$.l[0].a", "$.im{1}", `$.sm{"a"}`, "$.w.v.a", "$.*", "$.l[*]"}}
-	r := &maskResult{}
 	out := &maskRobustResult{}
 	use := func(stage string, m *fieldmask.FieldMask) {
 		r.guard(stage+"+query", func() { maskObserve(m, desc, q) })
@@ -548,9 +579,9 @@ func init() {
 				if maskDescs[c.Root] == nil {
 					return nil, fmt.Errorf("unknown root %q (have %v)", c.Root, names)
 				}
-				return maskRobustPath(&c)
+				return maskWatch(func(r *maskResult) (*maskRobustResult, error) { return maskRobustPath(&c, r) })
 			case "json":
-				return maskRobustJSON(&c)
+				return maskWatch(func(r *maskResult) (*maskRobustResult, error) { return maskRobustJSON(&c, r) })
 			}
 			return nil, fmt.Errorf("unknown case kind %q", c.K)
 		})
